@@ -26,6 +26,8 @@ DECIDED = [
     "R-C05-CMP (elapsed): a deferred_until that has passed is not handed out again as next execution time (C06's first-run rule reused)",
     "R-C05-CMP (one clock): the in-memory refresh reads the clock exactly once, into a plain `now`",
     "R-C05-POLL (round 5): the Redis delayed scan ends only on an empty page (a due message behind a full page of foreign entries is still found); R-C05-ROUTE: category comparisons by equality",
+    "R-C05-ROUND / R-C05-POLL / R-C05-ROUTE (round 6 + sweep): the RabbitMQ TTL is not capped; the in-memory refresh period is a constant; RabbitMQ: TTL exactly for a due time ahead, delayed queue exactly with a TTL, dead-letter route delayed -> work queue, a NORMAL consumer subscribes the work queue",
+    "R-C05-AWAITED: in the files this property is anchored in, no bare statement calls a coroutine function (the operation would never run)",
 ]
 NOT_DECIDED = ["the delivery latency bound after T (timing)", "RabbitMQ per-message TTL head-of-line blocking (server behaviour)"]
 ASSUMPTIONS = ["Redis ZRANGE BYSCORE -inf..now returns only members with score <= now", "RabbitMQ dead-letters expired messages of a queue to its DLX routing key"]
@@ -36,6 +38,13 @@ RABBIT_UTILS = "repid.connections.rabbitmq.utils"
 
 
 def run(ctx: Ctx) -> None:
+    from .shared import every_operation_awaited
+
+    every_operation_awaited(ctx, "R-C05-AWAITED")  # in the files this property is anchored in, no asynchronous operation is created and dropped
+    from .brokers import rabbit_enqueue_contract, rabbit_lifecycle
+
+    rabbit_enqueue_contract(ctx, "R-C05-ROUTE")  # RabbitMQ: a TTL exactly for a due time ahead, the delayed queue exactly with a TTL, the dead-letter route delayed -> work queue
+    rabbit_lifecycle(ctx, "R-C05-ROUTE")  # a NORMAL consumer subscribes the work queue, never the delayed one
     from .shared import category_equality
 
     category_equality(ctx, "R-C05-ROUTE")
@@ -427,6 +436,18 @@ def rounding(ctx: Ctx, rule: str) -> None:
                 if not any(x is y or any(x is z for z in ast.walk(y)) for y in conv):
                     conv.append(x)
                     owner_of[id(x)] = owner_of.get(id(d), f)
+    # the TTL is the whole time left: no clamp from above (RabbitMQ knows the due time only as this TTL - a capped TTL dead-letters the message into the work queue before it is due)
+    all_defs = [x for _, x in C.deep_defs(ctx, f, exp)]
+    clamps = [c for d in all_defs for c in ast.walk(d) if isinstance(c, ast.Call) and (dotted(c.func) or "").split(".")[-1] == "min"]
+    names_in_chain = {x.id for d in all_defs for x in ast.walk(d) if isinstance(x, ast.Name)} | ({exp.id} if isinstance(exp, ast.Name) else set())
+    for st in ast.walk(f.node):
+        # `if millis > LIMIT: millis = LIMIT`
+        if isinstance(st, ast.If) and isinstance(st.test, ast.Compare) and isinstance(st.test.ops[0], (ast.Gt, ast.GtE)) and isinstance(st.test.left, ast.Name) and st.test.left.id in names_in_chain \
+                and not C.is_const(st.test.comparators[0], 0) and any(isinstance(b, ast.Assign) and any(isinstance(t, ast.Name) and t.id == st.test.left.id for t in b.targets) for b in st.body):
+            clamps.append(st.test)
+    ctx.check(not clamps, rule, f, "rabbitmq expiration is not capped", "the TTL carries the whole time left",
+              f"rabbitmq enqueue caps the per-message TTL ({[unparse(c)[:60] for c in clamps][:2]}): the due time exists on RabbitMQ only as this TTL, so a message due later than the cap is "
+              "dead-lettered into the work queue - and delivered - before its time", node=clamps[0] if clamps else None, instance="rabbitmq expiration uncapped")
     from .delay import _component_reads
 
     if not any(comps & {"seconds", "microseconds"} for fn_ in [f] + C.helper_callees(ctx, f) for comps in _component_reads(fn_.node).values()):  # a component-wise conversion is judged by whole_duration_rule
@@ -617,6 +638,18 @@ def poll(ctx: Ctx, rule: str) -> None:
                         and isinstance(s.meta["value"].op, ast.Add)]
                 if names and not incr and not _mentions(t.ast, "locked"):
                     ok = False
+                # ... and the period it is compared with is a constant of the class, not a value derived from what the delayed map held at some earlier moment
+                for x in ast.walk(t.ast):
+                    if isinstance(x, ast.Compare) and isinstance(x.ops[0], (ast.Gt, ast.GtE, ast.Lt, ast.LtE)):
+                        for side in (x.left, x.comparators[0]):
+                            if isinstance(side, ast.Name) and any(s.target == side.id for s in incr):
+                                continue
+                            defs = C.local_defs(f, side.id) if isinstance(side, ast.Name) else []
+                            derived = [d for d in defs if any(isinstance(c, ast.Call) for c in ast.walk(d))]
+                            ctx.check(not derived and len(defs) <= 1, rule, f, "idle-loop refresh period is a constant", "the refresh comes round every UPDATE_DELAYED_EVERY seconds whatever the map held",
+                                      f"in-memory consume() waits for a refresh period `{unparse(side)}` computed from the state of the delayed map ({[unparse(d)[:50] for d in defs][:2]}): a message "
+                                      "that is scheduled sooner AFTER the period was computed is not promoted until the old period has run out - an unbounded delivery latency for an idle consumer",
+                                      node=t.ast, instance="in-memory refresh period constant")
         ctx.check(ok, rule, f, "idle-loop refresh guard advances", "the guard's counter grows on every idle iteration",
                   "the counter guarding the periodic delayed refresh is never incremented in the idle loop", instance="in-memory refresh guard")
     # redis: delayed before normal
